@@ -171,6 +171,8 @@ def make_runner(env, cfg=None):
             for name, value in cfg["fixed"]:
                 if isinstance(value, list):
                     value = tuple(value)      # e.g. antennas=(2, 4)
+                    if cfg.get("fixed_container") == "array":
+                        value = np.array(value)
                 self.params.add(name, value)
             for name, values in cfg["unpacked"]:
                 kind = cfg.get("container", {}).get(name, "list")
@@ -327,6 +329,11 @@ class _BufferedFile(object):
     def flush(self):
         pass
 
+    def fileno(self):
+        # flush() + os.fsync(fileno()) before the rename is harmless here:
+        # the data reach the disk when the file is closed
+        return self.f.fileno()
+
     def __enter__(self):
         return self
 
@@ -367,7 +374,7 @@ class _OsProxy(object):
             return self._inj.replace
         if name == "rename":
             return self._inj.replace
-        if name == "remove":
+        if name in ("remove", "unlink"):
             return self._inj.remove
         return getattr(self._real, name)
 
@@ -461,7 +468,33 @@ class Injector(object):
             self.fired = "remove#%d:after" % k
             self.env.die(self.fired)
 
+    def reconcile(self):
+        """the file system has the last word about what is durable: a file
+        deleted or moved by a call this proxy does not see (pathlib, shutil)
+        is not durable under its old name, and completely written data found
+        under a new name are durable there"""
+        for path in list(self.durable):
+            if not os.path.isfile(path):
+                del self.durable[path]
+        done = {}
+        for data in self.pending.values():
+            done[bytes(data) if isinstance(data, (bytes, bytearray))
+                 else data.encode()] = data
+        for folder, _dirs, files in os.walk(self.root):
+            for name in files:
+                path = os.path.realpath(os.path.join(folder, name))
+                if path in self.durable:
+                    continue
+                try:
+                    with open(path, "rb") as f:
+                        raw = f.read()
+                except OSError:
+                    continue
+                if raw in done:
+                    self.durable[path] = done[raw]
+
     def new_run(self, crash):
+        self.reconcile()
         self.crash = crash
         self.fired = None
         self.n_writes = self.n_replaces = self.n_removes = 0
